@@ -443,6 +443,98 @@ def h_copula(ctx, d, npts, method="INVERSION"):
     ctx.prove(f"C01.sum_of_rates_is_intensity.{d}d", EQ(lam, SymReal(z3.simplify(total))), info=info, replay=rpc)
 
 
+def replay_bsta_nd(sc):
+    """real HEM margins + Clayton, the n-d adapted tree built by the public factory: law of sample_with_us over a fine grid of uniforms
+    against the masses of the states' cells (built here from the raw axes)"""
+    import rpylib.model.levymodel.mixed.hem as HEM
+    from rpylib.distribution.levycopula import ClaytonCopula
+
+    d, npts = sc["d"], sc["npts"]
+    ms = [HEM.HEMModel(HEM.HEMParameters(sigma=0.1, p=0.4 + 0.1 * i, eta1=20.0 - 3 * i, eta2=25.0 + 2 * i, intensity=3.0 - 0.5 * i)) for i in range(d)]
+    lcm = LCM.LevyCopulaModel(models=ms, copula=ClaytonCopula(theta=2.0, eta=0.5))
+    h = 0.1
+    axis = np.array([-h * 1.7**k for k in range(npts)][::-1] + [0.0] + [h * 1.6**k for k in range(npts)])
+    grid = GS.CTMCGrid(h=h, origin_coordinate=npts, axes=[axis.copy() for _ in range(d)])
+    proc = MCLC.MarkovChainLevyCopula(lcm, grid, SamplingMethod.BINARYSEARCHTREEADAPTED)
+    smp = proc.sampling
+    lam = proc.intensity_of_jumps
+    model_t = proc.model
+    n = len(axis)
+    cs = cells(axis, npts)
+    central = (axis[npts - 1] / 2, axis[npts + 1] / 2)
+    N = 40000
+    us = (np.arange(N) + 0.5) / N * float(np.sum(smp._buckets_probabilities))
+    try:
+        out = smp.sample_with_us(us.copy())
+    except Exception as e:
+        return True, f"BinarySearchTreeAdapted.sample_with_us raises {type(e).__name__}: {e}"
+    cnt = {}
+    for st in out:
+        st = tuple(int(v) for v in st)
+        cnt[st] = cnt.get(st, 0) + 1
+    bad = []
+    for state in itertools.product(range(n), repeat=d):
+        if all(s == npts for s in state):
+            continue
+        lo = np.array([cs[s][0] if s != npts else central[0] for s in state], dtype=float)
+        hi = np.array([cs[s][1] if s != npts else central[1] for s in state], dtype=float)
+        want = max(float(model_t.mass(lo, hi)), 0.0) / lam
+        got = cnt.pop(tuple(s - npts for s in state), 0) / N
+        if abs(got - want) > 2e-3:
+            bad.append(f"state {tuple(round(float(axis[s]), 3) for s in state)}: share of uniforms {got:.4f} vs rate/intensity {want:.4f}")
+    for st, c in cnt.items():
+        bad.append(f"increment {st} outside the grid or the origin returned for a share {c / N:.4f}")
+    return bool(bad), f"HEM^{d} + Clayton(2, 0.5), axis {axis.round(3).tolist()}, adapted binary search tree: " + "; ".join(bad[:3])
+
+
+def h_bsta_nd(ctx, d=2, npts=2, prefix="C01"):
+    """the n-d adapted binary search tree built by the public factory on a copula chain: the set of uniforms sent to every state has
+    length rate/intensity (intensity pinned to 1 so that the thresholds, sums of masses, stay linear)"""
+    grid, lcm, models, cop = _copula_setup(ctx, d, npts)
+    rp = (replay_bsta_nd, lambda m: {"d": d, "npts": npts})
+    try:
+        proc = MCLC.MarkovChainLevyCopula(lcm, grid, SamplingMethod.BINARYSEARCHTREEADAPTED)
+    except ZeroDivisionError:
+        raise PathAbort()
+    smp = proc.sampling
+    lam = proc.intensity_of_jumps
+    ctx.assume(EQ(lam, 1))
+    piv = grid.origin_coordinate
+    trunc = [(ax[0], ax[len(ax) - 1]) for ax in grid.axes]
+    n = len(grid.axes[0])
+    cs = [cells(ax, piv[i]) for i, ax in enumerate(grid.axes)]
+    central = [(ax[piv[i] - 1] / 2, ax[piv[i] + 1] / 2) for i, ax in enumerate(grid.axes)]
+    u = ctx.real("u", 0, 1, hi_strict=True)
+
+    def one():
+        BSTA.BinarySearchTreeAdapted._compute_probability.cache_clear()
+        arr = np.empty(1, dtype=object)
+        arr[0] = u
+        return tuple(int(v) for v in smp.sample_with_us(arr)[0])
+
+    leaves = ctx.enumerate(one, max_leaves=4000)
+    info = {"d": d, "npts": npts, "leaves": len(leaves)}
+    for cons, val, exc in leaves:
+        if exc is not None:
+            ctx.prove(f"{prefix}.adapted_tree_nd.sampling_does_not_raise", False, info=dict(info, raised=repr(exc)[:200]), replay=rp)
+            return
+    meas = M.state_measures(leaves, V.to_term(u))
+    wants = {}
+    for state in itertools.product(range(n), repeat=d):
+        if all(s == piv[i] for i, s in enumerate(state)):
+            continue
+        lo = [cs[i][s][0] if s != piv[i] else central[i][0] for i, s in enumerate(state)]
+        hi = [cs[i][s][1] if s != piv[i] else central[i][1] for i, s in enumerate(state)]
+        wants[state] = oracle_mass(models, cop, lo, hi, trunc)
+        # a Lévy copula gives every rectangle a non-negative mass (d-increasing; C11/C12): assumed here for the cells of the grid
+        ctx.assume(SymBool(wants[state] >= 0))
+    for state, want in wants.items():
+        inc = tuple(s - piv[i] for i, s in enumerate(state))
+        got = meas.pop(inc, z3.RealVal(0))
+        ctx.prove(f"{prefix}.adapted_tree_nd.measure_times_intensity_is_cell_mass", SymBool(got == want), info=dict(info, state=state), replay=rp)
+    ctx.prove(f"{prefix}.adapted_tree_nd.never_origin_or_outside", SymBool(z3.And(*[o == 0 for o in meas.values()])) if meas else True, info=info, replay=rp)
+
+
 def h_twin(ctx):
     """sensitivity twin: a cell boundary moved to the state itself (instead of the midpoint) must be caught"""
     axis, h, pivot = sym_axis(ctx, 2, 2)
@@ -484,6 +576,10 @@ def harnesses(tier):
                            [(1, 1, "BINARYSEARCHTREE"), (2, 1, "BINARYSEARCHTREE"), (2, 2, "BINARYSEARCHTREE"), (1, 1, "ALIAS"), (1, 2, "ALIAS")]):
         hs.append(Harness(f"factory.{method}.{nl}.{nr}", h_factory_vector, {"nl": nl, "nr": nr, "method": method}, max_paths=6000))
     hs.append(Harness("copula.2d.1", h_copula, {"d": 2, "npts": 1}, max_paths=4000))
+    hs.append(Harness("bsta.2d.1", h_bsta_nd, {"d": 2, "npts": 1}, max_paths=4000, batch=1))
+    hs.append(Harness("bsta.2d.2", h_bsta_nd, {"d": 2, "npts": 2}, max_paths=4000, batch=1))
+    if not q:
+        hs.append(Harness("bsta.3d.1", h_bsta_nd, {"d": 3, "npts": 1}, max_paths=4000, batch=1))
     if not q:
         hs.append(Harness("copula.2d.2", h_copula, {"d": 2, "npts": 2}, max_paths=20000))
         hs.append(Harness("copula.3d.1", h_copula, {"d": 3, "npts": 1}, max_paths=20000))
@@ -493,7 +589,7 @@ def harnesses(tier):
 
 EXPECT = ["C01.poisson_clock_rate_is_sum_of_rates.1d", "C01.rate_is_cell_mass.1d", "C01.sum_of_rates_is_intensity.1d", "C01.cells_tile_without_gap_or_overlap.1d", "C01.state_inside_its_cell.1d",
           "C01.inversion_probability_times_intensity_is_cell_mass.1d", "C01.adapted_tree_1d.measure_times_intensity_is_cell_mass",
-          "C01.rate_is_cell_mass.2d", "C01.sum_of_rates_is_intensity.2d", "C01.factory_vector.measure_times_intensity_is_cell_mass"]
+          "C01.rate_is_cell_mass.2d", "C01.sum_of_rates_is_intensity.2d", "C01.adapted_tree_nd.measure_times_intensity_is_cell_mass", "C01.factory_vector.measure_times_intensity_is_cell_mass"]
 
 
 def main(tier):
